@@ -39,9 +39,10 @@ type engTarget struct {
 }
 
 type engSource struct {
-	ID   int
-	Path int            // path id
-	Dir  map[string]int // a source DIRECTORY: file name -> literal id of its content (nil for a plain file)
+	ID    int
+	Path  int             // path id
+	Dir   map[string]int  // a source DIRECTORY: file name -> literal id of its content (nil for a plain file)
+	Links map[string]bool // entries of Dir that are symbolic links to files outside the directory
 }
 
 type engProject struct {
@@ -254,6 +255,7 @@ const engBodySh = `#!/bin/sh
 # usage: body.sh <root> <label> <k> <noutputs> outputs... inputs...
 root=$1; label=$2; k=$3; n=$4; shift 4
 echo "$label" >> "$root/.exec.log"
+case ",$VERIF_FAILRM," in *",$label,"*) rm -rf "$root/.dawn/build/temp"; printf 'body of %s fails' "$label" >&2; exit 1;; esac
 case ",$VERIF_FAIL," in *",$label,"*) printf 'body of %s fails' "$label" >&2; exit 1;; esac
 case ",$VERIF_PARTIAL," in *",$label,"*)
   # the process is killed in the middle of this body: outputs exist but are incomplete
@@ -268,7 +270,7 @@ tmp="$root/.tmpout.$$"
 {
   echo "$label $k"
   for f in "$@"; do
-    if [ -d "$f" ]; then echo D; (cd "$f" && find . -type f | LC_ALL=C sort | while read g; do echo "$g"; cat "$g"; done)
+    if [ -d "$f" ]; then echo D; (cd "$f" && find -L . -type f | LC_ALL=C sort | while read g; do echo "$g"; cat "$g"; done)
     elif [ -e "$f" ]; then echo F; cat "$f"
     else echo M; fi
   done
